@@ -85,7 +85,7 @@ def rule_wrappers(ctx: Ctx) -> None:
 
 
 KNOCKOUTS = [
-    Knockout("mixture-trace-out-size-read-per-branch", "graphiq/backends/stabilizer/state.py", sub_once("                    keep=keep,\n", "                    keep=[q for q in range(self.n_qubits) if q not in qubit_positions],\n"), "size.stale-per-branch", "trace_out_qubits", on_fixed_only=True),
+    Knockout("mixture-trace-out-size-read-per-branch", "graphiq/backends/stabilizer/state.py", sub_once("                    keep=keep,\n                    dims=n_qubits * [2],\n", "                    keep=[q for q in range(self.n_qubits) if q not in qubit_positions],\n                    dims=n_qubits * [2],\n"), "size.stale-per-branch", "trace_out_qubits", on_fixed_only=True),
     Knockout("reset-y-minus-uses-phase-dagger", CLIFF, sub_nth("    new_tableau = hadamard_gate(new_tableau, qubit_position)\n    new_tableau = phase_gate(new_tableau, qubit_position)\n    return new_tableau", "    new_tableau = hadamard_gate(new_tableau, qubit_position)\n    if intended_state == 0:\n        new_tableau = phase_gate(new_tableau, qubit_position)\n    else:\n        new_tableau = phase_dagger_gate(new_tableau, qubit_position)\n    return new_tableau", 0), "reset.basis", "reset_y"),
     Knockout("measure-x-restores-only-random-outcomes", CLIFF, sub_once("    stabilizer_state_new, outcome, _ = z_measurement_gate(\n        stabilizer_state_new, qubit_position, measurement_determinism\n    )\n    # rotate back: the gates act in place on the caller's tableau\n    hadamard_gate(stabilizer_state_new, qubit_position)", "    stabilizer_state_new, outcome, probabilistic = z_measurement_gate(\n        stabilizer_state_new, qubit_position, measurement_determinism\n    )\n    if probabilistic:\n        hadamard_gate(stabilizer_state_new, qubit_position)"), "measure.basis-restored", "measure_x"),
     Knockout("tensor-phase-halves-not-interleaved", CLIFF, sub_once("            (phase_list1[0], phase_list2[0], phase_list1[1], phase_list2[1])", "            (phase_list1[0], phase_list1[1], phase_list2[0], phase_list2[1])"), "tensor.layout", "phase vector"),
